@@ -191,11 +191,13 @@ def fiddler_from_diff(
       additional_converters=value_converters)
 
   body = []
+  # The aliases for moved (or original) values only refer to `param_name`, so
+  # they are defined first; new shared values may refer to them.
+  body += _cst_for_moved_value_variables(param_name, moved_value_names,
+                                         pyval_to_cst)
   body += _cst_for_new_shared_value_variables(diff.new_shared_values,
                                               new_shared_value_names,
                                               pyval_to_cst)
-  body += _cst_for_moved_value_variables(param_name, moved_value_names,
-                                         pyval_to_cst)
   body += _cst_for_changes(diff, param_name, moved_value_names, pyval_to_cst)
 
   fiddler = _cst_for_fiddler(func_name, param_name, body,
@@ -233,12 +235,55 @@ def _cst_for_new_shared_value_variables(
     pyval_to_cst: PyValToCstFunc) -> List[cst.CSTNode]:
   """Returns a list of `CSTNode`s for creating new shared value variables."""
   statements = []
-  for value, name in sorted(zip(values, names), key=lambda item: item[1]):
+  for index in _new_shared_value_order(values, names):
     statements.append(
         cst.Assign(
-            targets=[cst.AssignTarget(target=cst.Name(name))],
-            value=pyval_to_cst(value)))
+            targets=[cst.AssignTarget(target=cst.Name(names[index]))],
+            value=pyval_to_cst(values[index])))
   return [cst.SimpleStatementLine([stmt]) for stmt in statements]
+
+
+def _new_shared_value_order(values: Tuple[Any], names: List[str]) -> List[int]:
+  """Returns indices of `values`, such that references point backwards.
+
+  A new shared value may contain `Reference`s to other new shared values; the
+  variable for a shared value must be defined before it is referenced. Values
+  that don't depend on each other are ordered by name.
+
+  Args:
+    values: The new shared values of a diff.
+    names: The variable name for each value.
+  """
+  dependencies = []
+  for value in values:
+    referenced = set()
+
+    def collect_references(path, node, referenced=referenced):
+      del path  # Unused.
+      yield
+      if (isinstance(node, diffing.Reference) and
+          node.root == 'new_shared_values'):
+        referenced.add(node.target[0].index)
+
+    daglish_legacy.traverse_with_path(collect_references, value)
+    dependencies.append(referenced)
+
+  order = []
+  done = set()
+
+  def visit(index, in_progress):
+    if index in done:
+      return
+    if index in in_progress:
+      raise ValueError('Cyclic references between new_shared_values.')
+    for dependency in sorted(dependencies[index], key=lambda i: names[i]):
+      visit(dependency, in_progress | {index})
+    done.add(index)
+    order.append(index)
+
+  for index in sorted(range(len(values)), key=lambda i: names[i]):
+    visit(index, frozenset())
+  return order
 
 
 def _cst_for_moved_value_variables(
